@@ -96,8 +96,13 @@ PLANE_VARIANTS = [
     lambda: dict(amplitude=2.0, opd=0.5),
     lambda: dict(amplitude=np.ones((4, 4)), opd=_ramp((4, 4)) / 16.0, pixelscale=(1, 1)),
 ]
-TILT_VARIANTS = [(0.0, 0.0), (0.125, 0.0), (0.0, -0.125), (0.125, 0.125)]
-DISP_VARIANTS = [([1.0, 0.0], [1.0, 1.0]), ([0.0, 0.5], [1.0, 0.0]), ([1.0, 0.0], [2.0, 0.0])]
+# Tilts are kept small: one tilt plane displaces the propagated field by at most 1/8 output sample
+# (angle * focal length / pixel scale), so that even 40 of them leave part of the field inside the
+# smallest DFT window.  A wavefront propagated wholly outside the window has no fields at all, and
+# then no tilt bit to observe.
+TILT_A = 1.0 / 128
+TILT_VARIANTS = [(0.0, 0.0), (TILT_A, 0.0), (0.0, -TILT_A), (TILT_A, TILT_A)]
+DISP_VARIANTS = [([1.0, 0.0], [1.0, 1.0]), ([0.0, 0.0625], [16.0, 0.0]), ([1.0, 0.0], [32.0, 0.0])]
 ROT_VARIANTS = [dict(angle=90), dict(angle=0), dict(angle=30, order=1), dict(angle=1.0, unit='radians')]
 FLIP_VARIANTS = [dict(axis=None), dict(axis=0), dict(axis=1)]
 # (du, oversample, shape) for the DFT; (du, oversample, shape) for the FFT
@@ -166,7 +171,7 @@ def build_wavefront(lentil, wt, tilted):
     """a wavefront of type wt with real 4x4 field data, with or without a tilt object on its field"""
     if wt not in WTYPES:
         raise GeneratorError(f'unknown wavefront type {wt!r}')
-    w = lentil.Wavefront(WL, pixelscale=1, focal_length=FOCAL[0], tilt=[0.125, 0.0] if tilted else None)
+    w = lentil.Wavefront(WL, pixelscale=1, focal_length=FOCAL[0], tilt=[TILT_A, 0.0] if tilted else None)
     w = w * lentil.Plane(amplitude=_ramp((4, 4)))
     w.ptype = getattr(lentil, wt)
     if state_of(w) != (wt, bool(tilted)):
@@ -329,7 +334,8 @@ def render(obs):
             a(f'  | {M_CON[m]}, {W_CON[st[0]]}, {"true" if st[1] else "false"} => {_outcome(obs["prop"][(m, st)])}')
     a('  end.')
     a('')
-    a('(* implementation-defined facts about fitted tilt (parameters of the documented machine) *)')
+    a('(* implementation-defined facts about fitted tilt: which classes attach one (informational), and')
+    a('   whether propagate_fft refuses a wavefront that carries one (parameter of the documented machine) *)')
     a('Definition observed_class_tilts (k : cls) : bool :=')
     a('  match k with ' + ' | '.join(f'{K[k]} => {"true" if obs["class_tilts"][k] else "false"}' for k in classes) + ' end.')
     a(f'Definition observed_fft_refuses_tilt : bool := {"true" if obs["fft_refuses_tilt"] else "false"}.')
